@@ -13,7 +13,7 @@ from ..common import Violation, must_not_raise
 PROP = 'C17'
 EXAMPLES = {'quick': 150, 'thorough': 4000}
 RULE = (
-    'pixel2index: Hypothesis draws map shapes of 1-3 dimensions (dims 1-7; with x64 on also huge virtual maps of up to '
+    'pixel2index: (also maps of 2**24-2**31 pixels with float32 coordinates) Hypothesis draws map shapes of 1-3 dimensions (dims 1-7; with x64 on also huge virtual maps of up to '
     '3e9 pixels) and batches of coordinates = integer centre + offset in (-0.5+d, 0.5-d), plus outside points (below '
     '-0.5-d or above n-0.5+d in >= 1 dimension, incl. +-1e6); oracle index = sum round(c_k) stride_k with the first '
     'coordinate fastest (numpy.ravel_multi_index on reversed coordinates), -1 outside, dtype int32 unless N-1 > 2^31-1 '
@@ -43,9 +43,15 @@ def flat_case(draw, mode):
             nd = len(shape)
     else:
         shape = [draw(st.integers(1, 7)) for _ in range(nd)]
+    # maps of 2**24 .. 2**31 pixels addressed with single-precision coordinates: every coordinate is exact in float32,
+    # the flat index is not (it has to be accumulated in the integer dtype)
+    medium = not huge and draw(st.integers(0, 5)) == 0
+    if medium:
+        nd = draw(st.integers(2, 3))
+        shape = [draw(st.sampled_from([4097, 5000, 8192, 6001] if nd == 2 else [257, 300, 512, 401])) for _ in range(nd)]
     pshape = shape[::-1]
     npts = draw(st.integers(1, 8))
-    cdt = 'float64' if (huge or (mode == 'x64' and draw(st.booleans()))) else 'float32'
+    cdt = 'float64' if (huge or (mode == 'x64' and not medium and draw(st.booleans()))) else 'float32'
     d = 1e-6 if cdt == 'float64' else 2e-3
     pts = []
     for _ in range(npts):
@@ -191,6 +197,8 @@ def check(recipe, mode):
             raise Violation('pixel2index-value', f'shape {shape}: coordinates {pts[j].tolist()} -> {got[j] if got.shape == want.shape else got}, expected {int(want[j])}')
         N = math.prod(shape)
         classes = ['flat', f'ndim:{len(shape)}', 'coords:' + recipe['cdtype']]
+        if recipe['cdtype'] == 'float32' and math.prod(shape) > 2 ** 24:
+            classes.append('float32_coords_over_2^24_pixels')
         if x64:
             need64 = N - 1 > 2 ** 31 - 1
             if need64 and got.dtype != np.int64:
